@@ -63,6 +63,10 @@ def run(chk, tier):
     for r, d, fl in (('R1', 'panic-site audit of the front end', 80), ('R1t', 'loops terminate', 0), ('R2', 'TuiApp index invariants hold after every writer', 25),
                      ('R3', 'selection is re-validated between every snapshot / command and the next frame', 4)):
         chk.rule(r, d, floor=fl)
+    # the flow selection is looked up in flow_counts, which keeps the max_flows() most frequent flows: that it lists *every* registered flow (the reviewed
+    # reason of the unwrap in next_flow / previous_flow) needs the registry never to hold more than max_flows (C15.R4, imported)
+    from ..report import run_sub
+    run_sub(chk, 'c15', 'C15.', {'R4'})
     MAXZ = prog.const_val('trippy_tui::frontend::tui_app::MAX_ZOOM_FACTOR')
     MAXTTL = prog.const_val('trippy_core::constants::MAX_TTL')
     ftabs = prog.find(r'render::settings::settings_tabs$')
